@@ -154,6 +154,23 @@ def run_tlc_sims(model, cfg, wd, num, depth, seed, par=8, timeout=900):
     return outs, gen, gen
 
 
+def run_apalache(spec, init, inv, length, wd, timeout=900):
+    """apalache-mc check --init=<init> --inv=<inv> --length=<n>; returns True iff no error was found (EXITCODE: OK)."""
+    out = os.path.join(wd, "apalache_%s_%s_%d.out" % (init, inv, length))
+    cmd = ["apalache-mc", "check", "--init=" + init, "--inv=" + inv, "--length=%d" % length, "--out-dir=" + os.path.join(wd, "_apalache-out"),
+           os.path.join(SPEC, spec + ".tla")]
+    t0 = time.time()
+    with open(out, "w") as f:
+        try:
+            subprocess.run(cmd, stdout=f, stderr=subprocess.STDOUT, timeout=timeout, cwd=wd)
+        except subprocess.TimeoutExpired:
+            raise ToolError("apalache timed out on %s" % spec)
+    txt = open(out, errors="replace").read()
+    shutil.rmtree(os.path.join(wd, "_apalache-out"), ignore_errors=True)
+    log("apalache %s init=%s inv=%s length=%d: %s, %.1fs" % (spec, init, inv, length, "OK" if "EXITCODE: OK" in txt else "NOT OK", time.time() - t0))
+    return "EXITCODE: OK" in txt
+
+
 def tail_errors(txt):
     ls = [l for l in txt.splitlines() if "rror" in l or "xception" in l]
     return "\n".join(ls[:12])
